@@ -1,6 +1,7 @@
 import Flatland.JsonUtil
 import Flatland.C18
 import Flatland.C18Multi
+import Flatland.C18Flat
 import Flatland.Run.C04
 open Lean Flatland.J
 namespace Flatland.Run.C18
@@ -147,6 +148,10 @@ def readJson : Option (Native × List Char) → Json
   | some (v, u) => Json.arr #[ofNative v, ofText u]
   | none => Json.null
 
+/-- `form.flatten()` of the form with its Ref field, through the flat model's queue loop -/
+def flatJson (t : Tree) (path : List PStep) : Json :=
+  ofList (fun (p : List Char × List Char) => Json.arr #[ofText p.1, ofText p.2]) (Flatland.C18.Flat.formFlat t path)
+
 def leafStates : Option Tree → List SState
   | some (.list _ ms) => ms.filterMap fun t => match t with | .leaf _ _ st => some st | _ => none
   | some (.leaf _ _ st) => [st]
@@ -173,7 +178,8 @@ def runRef (j : Json) : Except String Json := do
   let steps := runOps (fun (s : TState) o => match liveStep E w path s o with
       | .ok (s', ret, rd) =>
         .ok (s', obj [("exc", Json.null), ("ret", retJson ret), ("read", readJson rd),
-                      ("t", match leafStates (s'.tree.resolve path) with | [st] => stateJson st | _ => Json.null)])
+                      ("t", match leafStates (s'.tree.resolve path) with | [st] => stateJson st | _ => Json.null),
+                      ("flat", flatJson s'.tree path)])
       | .error e => .error (traiseName e)) excObj start ops []
   return obj [("steps", Json.arr steps.toArray)]
 
@@ -202,7 +208,8 @@ def runRefList (j : Json) : Except String Json := do
   let steps := runOps (fun (s : TState) o => match liveStep E w path s o with
       | .ok (s', ret, rd) =>
         .ok (s', obj [("exc", Json.null), ("ret", retJson ret), ("read", readJson rd),
-                      ("members", membersJson (leafStates (s'.tree.resolve [.name "l".toList])))])
+                      ("members", membersJson (leafStates (s'.tree.resolve [.name "l".toList]))),
+                      ("flat", flatJson s'.tree path)])
       | .error e => .error (traiseName e)) excObj start ops []
   return obj [("steps", Json.arr steps.toArray)]
 
